@@ -53,6 +53,8 @@ package refopts
 //@   ensures result != nil ==> v.rgb.topLevelGroup.filter == old(v.rgb.topLevelGroup.filter)
 
 //@ property C06: (*filterValue).interpretFlexibly (*filterValue).Set (*filterGroupValue).Set
+// spellings of one setting (--refgroup G, --include @G) have one effect: C14
+//@ property C14: (*filterGroupValue).Set (*filterValue).interpretFlexibly
 
 // ---------------------------------------------------------------- ref_group.go: collectSymbols (C07)
 // The result for a group is composed of: its own symbol if it matched (first),
